@@ -68,9 +68,9 @@ type Var struct {
 
 // Scope is the static environment during generation.
 type Scope struct {
-	Vars   []Var
-	HasIJ  bool
-	IJ     *Ty // record type of the injected data
+	Vars  []Var
+	HasIJ bool
+	IJ    *Ty // record type of the injected data
 }
 
 func (s *Scope) with(v Var) *Scope {
@@ -108,7 +108,7 @@ func (g *G) Intn(n int) int {
 	}
 	return rapid.IntRange(0, n-1).Draw(g.T, "n")
 }
-func (g *G) Chance(percent int) bool { return rapid.IntRange(0, 99).Draw(g.T, "p") >= 100-percent } // shrinks towards false
+func (g *G) Chance(percent int) bool  { return rapid.IntRange(0, 99).Draw(g.T, "p") >= 100-percent } // shrinks towards false
 func (g *G) Pick(xs ...string) string { return xs[g.Intn(len(xs))] }
 
 // Weighted picks an index with the given weights.
@@ -493,7 +493,7 @@ func (g *G) useVar(v *Var) *Expr {
 	return &Expr{Op: "ref", Name: v.Name}
 }
 
-func bin(op string, a, b *Expr) *Expr { return &Expr{Op: op, Args: []*Expr{a, b}} }
+func bin(op string, a, b *Expr) *Expr       { return &Expr{Op: op, Args: []*Expr{a, b}} }
 func call(name string, args ...*Expr) *Expr { return &Expr{Op: "call", Name: name, Args: args} }
 
 func (g *G) optPaths(sc *Scope) []*Var {
